@@ -316,6 +316,10 @@ pub fn run(cx: &mut Cx) {
             continue;
         }
         cx.count("chains", 1);
+        // an includer per template, added afterwards: including a template renders it, inheritance included
+        let mut t = t;
+        let incs: Vec<(String, String)> = (0..len).map(|i| (format!("inc{i}"), format!("<{{% include \"t{i}\" %}}>"))).collect();
+        let includers_ok = matches!(guard(|| t.add_raw_templates(incs.clone()).is_ok()), Ok(true));
         if mode >= 3 && len > 1 {
             cx.count("chains_reparented_after_registration", 1);
         }
@@ -359,6 +363,18 @@ pub fn run(cx: &mut Cx) {
                 (Ok(()), Ok(g)) => cx.violation("C04/wrong-block-resolution", format!("{name} rendered {:?}, most-derived/super() resolution gives {:?}", clip(g, 400), clip(&exp, 400)), replay.clone()),
                 (Ok(()), Err(e)) => cx.violation("C04/valid-chain-fails-to-render", format!("{name}: {}; expected {:?}", clip(e, 200), clip(&exp, 200)), replay.clone()),
                 (Err(why), Ok(g)) => cx.violation(&format!("C04/rendered-although-{why}"), format!("{name} rendered {:?} although the model says: {why}", clip(g, 300)), replay.clone()),
+            }
+            if includers_ok {
+                cx.eval();
+                let gi = guard(|| t.render(&format!("inc{leaf}"), &Context::new()).map_err(|e| e.to_string()));
+                cx.count("included_leaves_compared", 1);
+                match (&mr, gi) {
+                    (Ok(()), Ok(Ok(g))) if g == format!("<{exp}>") => {}
+                    (Err(_), Ok(Err(_))) => {}
+                    (Ok(()), Ok(g)) => cx.violation("C04/included-template-not-rendered-through-its-ancestors", format!("`{{% include \"{name}\" %}}` rendered {:?}, rendering {name} gives {:?}", g.map(|x| clip(&x, 300)), clip(&exp, 300)), replay.clone()),
+                    (Err(why), Ok(Ok(g))) => cx.violation(&format!("C04/rendered-although-{why}"), format!("`{{% include \"{name}\" %}}` rendered {:?} although the model says: {why}", clip(&g, 300)), replay.clone()),
+                    (_, Err(p)) => cx.violation(&format!("C04/panic/{}", panic_site(&p)), format!("include of {name} panicked: {p}"), replay.clone()),
+                }
             }
             if mr.is_ok() {
                 for (b, txt) in &model.block_text {
